@@ -95,35 +95,40 @@ def clamp_spec(b, n, default):
     return z3.If(bz >= 0, z3.If(bz <= n, bz, n), z3.If(from_end >= 0, from_end, 0))
 
 
+def build_key(S, desc):
+    """desc["key"]: per key position "i" (any int), an int literal, ("s"|"s1", has_lo, has_hi) (slice with any int bounds, step None | 1), ":" (full slice),
+    "..." ; desc["scalar"]: the key is the single entry itself, not a tuple.  -> (key, parts) with parts = the same thing as data for the clauses"""
+    key, parts = [], []
+    for j, d in enumerate(desc["key"]):
+        if d == "i":
+            x = S.int(f"k{j}")
+            key.append(x)
+            parts.append(("i", x))
+        elif d == ":":
+            key.append(slice(None, None, None))
+            parts.append(("s", None, None))
+        elif d == "...":
+            key.append(Ellipsis)
+            parts.append(("...",))
+        elif isinstance(d, int):
+            key.append(d)
+            parts.append(("i", d))
+        else:
+            lo = S.int(f"lo{j}") if d[1] else None
+            hi = S.int(f"hi{j}") if d[2] else None
+            key.append(slice(lo, hi, 1 if d[0] == "s1" else None))
+            parts.append(("s", lo, hi))
+    return (key[0] if desc.get("scalar") else tuple(key)), parts
+
+
 def gi_setup(desc, dtype="float32"):
-    """desc: per key position "i" (any int), ("s", has_lo, has_hi) (slice with any int bounds), ":" (full slice), "..." ; scalar=True: key is not a tuple"""
     def f(S):
         from swcgeom.images.io import NDArrayImageStack
 
         a = source(S, "XYZC", dtype, "imgs")
         self = S.obj(NDArrayImageStack, imgs=a)
         self.frozen = True
-        key, parts = [], []
-        for j, d in enumerate(desc["key"]):
-            if d == "i":
-                x = S.int(f"k{j}")
-                key.append(x)
-                parts.append(("i", x))
-            elif d == ":":
-                key.append(slice(None, None, None))
-                parts.append(("s", None, None))
-            elif d == "...":
-                key.append(Ellipsis)
-                parts.append(("...",))
-            elif isinstance(d, int):
-                key.append(d)
-                parts.append(("i", d))
-            else:
-                lo = S.int(f"lo{j}") if d[1] else None
-                hi = S.int(f"hi{j}") if d[2] else None
-                key.append(slice(lo, hi, 1 if d[0] == "s1" else None))
-                parts.append(("s", lo, hi))
-        k = key[0] if desc.get("scalar") else tuple(key)
+        k, parts = build_key(S, desc)
         return dict(self=self, key=k, __ghost__=dict(src_arr=a, parts=parts))
 
     return f
@@ -369,14 +374,6 @@ def v3_protocol(E, v, o):
     return foreign == [f"v3dpy.{kind}", f"v3dpy.{kind}.load"] and mk[0]["args"] == () and mk[0]["kwargs"] == {} and ld[0]["file"] is v["fname"]
 
 
-def v3_loader_shape(E, v, o):
-    return shape_is(held(v), list(E.spec_extra["src_arr"].shape))
-
-
-def v3_loader_voxels(E, v, o):
-    return rescaled(held(v), E.spec_extra["src_arr"], v["dtype"])
-
-
 def v3_untouched(E, v, o):
     fa, la = E.spec_extra["file_arr"], E.spec_extra["src_arr"]
     return B.forall_idx(la.shape, lambda ix: la.elem(ix) == fa.fn(*ix[::-1]))
@@ -391,8 +388,6 @@ def v3_axes(E, v, o):  # FINDING
 def reg_v3d(R):
     ens = [
         ("loader-built-without-arguments-and-asked-once-for-the-named-file", v3_protocol),
-        ("held-extents-are-those-of-the-array-the-loader-returned", v3_loader_shape),
-        ("held-voxel-is-the-documented-rescaling-of-the-loaders-voxel-at-the-same-index", v3_loader_voxels),
         ("held-dtype-is-the-requested-one", nr_dtype),
         ("loaded-array-untouched", v3_untouched),
         ("sets-only-imgs", lambda E, v, o: set(v["self"].fields) == {"imgs"}),
@@ -566,7 +561,7 @@ def ri_content(E, v, o):
     if name == "NrrdImageStack":
         return B.conj(*[with_src(E, src["nrrd"], f, vv) for f in (nr_shape, nr_voxels, nr_dtype, nr_header)])
     if name in V3KIND:
-        return B.conj(*[with_src(E, src["v3d"], f, vv) for f in (v3_loader_shape, v3_loader_voxels, nr_dtype, B.nd_only_field)])
+        return B.conj(*[with_src(E, src["v3d"], f, vv) for f in (nr_dtype, B.nd_only_field)])  # axes / voxels: the FINDING clause of V3dImageStack.__init__
     if name == "NDArrayImageStack":
         a = src["npy"]
         return B.conj(shape_is(held(vv), B.in4(a)[0]), rescaled(held(vv), a, dt), held(vv).dtype == want_dtype(a, dt), B.nd_only_field(E, vv, None))
@@ -663,12 +658,109 @@ def reg_read_imgs(R):
     )
 
 
+# =========================================================================== GrayImageStack (legacy wrapper returned by read_images)
+def gray_parts(parts):
+    """the key a GrayImageStack applies to its (X, Y, Z, C) stack: the caller's key over (X, Y, Z), channel 0"""
+    parts = list(parts)
+    if not any(p[0] == "..." for p in parts):
+        parts += [("s", None, None)] * (3 - len(parts))
+    return parts + [("i", 0)]
+
+
+def gray_setup(desc=None, dtype="float32"):
+    def f(S):
+        from swcgeom.images.io import GrayImageStack, NDArrayImageStack
+
+        a = source(S, "XYZC", dtype, "imgs")
+        inner = S.obj(NDArrayImageStack, imgs=a)
+        inner.frozen = True
+        self = S.obj(GrayImageStack, imgs=inner)
+        self.frozen = True
+        d = dict(self=self, __ghost__=dict(src_arr=a, inner=inner, parts=gray_parts([("s", None, None)] * 3)))
+        if desc is not None:
+            d["key"], parts = build_key(S, desc)
+            d["__ghost__"]["parts"] = gray_parts(parts)
+        return d
+
+    return f
+
+
+def gray_kept(E, v, o):
+    a, inner = E.spec_extra["src_arr"], E.spec_extra["inner"]
+    return v["self"].fields.get("imgs") is inner and inner.fields.get("imgs") is a and untouched(a)
+
+
+def gray_result(S, fr):
+    """shape of the value a (recursive) call returns: one extent per slice axis of the key over (X, Y, Z)"""
+    a, plan = gi_plan(S.eng)
+    nsl = sum(1 for p in plan if p[0] == "s")
+    if nsl == 0:
+        return S.real("gray")
+    out = ImgArr.source(dims_of(S, [f"g{k}" for k in range(nsl)]), a.dtype, "gray")
+    return out
+
+
+def reg_gray(R):
+    keys = {
+        "[x,y,z]": dict(key=["i", "i", "i"]),
+        "[x]": dict(key=["i"], scalar=True),
+        "[x,y]": dict(key=["i", "i"]),
+        "[a:b]": dict(key=[("s", True, True)], scalar=True),
+        "[a:b,c:d]": dict(key=[("s", True, True), ("s", True, True)]),
+        "[a:b,c:d,e:f]": dict(key=[("s", True, True), ("s", True, True), ("s", True, True)]),
+        "[:,:,:]": dict(key=[":", ":", ":"]),
+        "[x,:,a:b]": dict(key=["i", ":", ("s", True, True)]),
+    }
+    # FINDING: GrayImageStack.__getitem__ starts with `v = self[key]` (it should ask the wrapped stack: self.imgs[key]): every call recurses on the
+    # same arguments until RecursionError (replayed natively).  The obligation recursion/measure-decreases has a counter-model; under the partial-
+    # correctness reading (the inner call meets this contract) slice keys also lose one more axis than documented (post clauses below).
+    R.add(
+        f"{IO}:GrayImageStack.__getitem__",
+        prop="C20",
+        variants={k: gray_setup(d) for k, d in keys.items()},
+        returns=gray_result,
+        options=dict(measure=lambda E, vars: z3.IntVal(0)),
+        raises={"IndexError": ("only-when-an-integer-index-is-outside-[-extent,extent)-or-there-is-no-channel", lambda E, v, o: z3.Not(gi_in_range(E)))},
+        ensures=[
+            ("returned-only-when-every-integer-index-is-inside-[-extent,extent)", lambda E, v, o: gi_in_range(E)),
+            ("pixel-or-patch-over-(X,Y,Z)-integer-axes-dropped", gi_shape),  # FINDING (see above)
+            ("result-[j]-is-channel-0-of-stack-voxel-[key-applied-to-j]", gi_values),  # FINDING (see above)
+            ("result-keeps-the-stack-dtype", gi_dtype),
+            ("wrapped-stack-untouched", gray_kept),
+        ],
+        notes="keys over (X, Y, Z): up to three ints / slices; the channel axis is dropped (channel 0)",
+    )
+    R.add(
+        f"{IO}:GrayImageStack.get_full",
+        prop="C20",
+        variants={"eager-stack": gray_setup()},
+        raises={"IndexError": ("only-when-there-is-no-channel", lambda E, v, o: z3.Not(gi_in_range(E)))},
+        ensures=[
+            ("is-(X,Y,Z)", gi_shape),
+            ("voxel-[x,y,z]-is-channel-0-of-the-wrapped-stack", gi_values),
+            ("result-keeps-the-stack-dtype", gi_dtype),
+            ("wrapped-stack-untouched", gray_kept),
+        ],
+    )
+    R.add(
+        f"{IO}:GrayImageStack.shape",
+        prop="C20",
+        variants={"eager-stack": gray_setup()},
+        ensures=[
+            ("is-the-3-tuple-(X,Y,Z)-of-the-wrapped-stack", lambda E, v, o: isinstance(v["result"], tuple) and len(v["result"]) == 3
+             and B.conj(*[B.eq_dim(g, w) for g, w in zip(v["result"], E.spec_extra["src_arr"].shape[:3])])),
+            ("wrapped-stack-untouched", gray_kept),
+        ],
+    )
+
+
 def register(R):
     reg_ndarray_access(R)
     reg_nrrd(R)
     reg_v3d(R)
     reg_terafly_bits(R)
     reg_read_imgs(R)
+    reg_gray(R)
 
 
 def lemmas():
